@@ -35,11 +35,13 @@ func init() {
 		}
 		externals["sync/atomic.Store"+ty] = func(fr *frame, a []value) value {
 			fr.schedPoint("atomic")
+			fr.p.sched.visOps++
 			*a[0].(*value) = a[1]
 			return nil
 		}
 		externals["sync/atomic.Swap"+ty] = func(fr *frame, a []value) value {
 			fr.schedPoint("atomic")
+			fr.p.sched.visOps++
 			old := *a[0].(*value)
 			*a[0].(*value) = a[1]
 			return old
@@ -49,6 +51,7 @@ func init() {
 			p := a[0].(*value)
 			if fr.p.truth(fr.p.eqv(*p, a[1])) {
 				*p = a[2]
+				fr.p.sched.visOps++
 				return true
 			}
 			return false
@@ -63,6 +66,7 @@ func init() {
 					panic(unsupported("atomic.Add on symbolic value"))
 				}
 				*p = retype(*p, xb+yb)
+				fr.p.sched.visOps++
 				return *p
 			}
 		}
@@ -179,7 +183,6 @@ func extRWRLock(fr *frame, a []value) value {
 	// writer preference: a pending writer blocks new readers
 	fr.blockOn(func() bool { return (*w).(int32) == 0 && (*pend).(uint32) == 0 }, "RWMutex.RLock")
 	*readers = (*readers).(int32) + 1
-	fr.p.sched.visOps++
 	return nil
 }
 
@@ -192,7 +195,6 @@ func extRWRUnlock(fr *frame, a []value) value {
 		fr.fatal("fatal error: sync: RUnlock of unlocked RWMutex")
 	}
 	*readers = (*readers).(int32) - 1
-	fr.p.sched.visOps++
 	return nil
 }
 
